@@ -11,7 +11,7 @@ TRACE_CFG = "INIT Init\nNEXT Next\nCHECK_DEADLOCK FALSE\n"
 COLS = ["seqid", "source", "featuretype", "start", "end", "score", "strand", "frame", "file_order", "length"]
 SEQIDS = ["chrB", "chra", "Chr1", "chré", "10", "9", "2"]
 SCORES = ["10", "9", "2.5", ".", "100"]
-TYPES = ["gene", "exon", "CDS", "Exon"]
+TYPES = ["gene", "exon", "CDS", "Exon", "mRNA", "tRNA", "five_prime_UTR", "intron"]
 
 
 def make_db(rng, n):
@@ -105,17 +105,18 @@ def run(ctx):
             events.append({"db": len(dbs), "kind": "select", "q": {k2: q[k2] for k2 in ("anyType", "ftypes", "strand", "order", "reverse")}, "ids": ids})
             meta.append((q, via))
         for t in [None] + TYPES + ["nosuch"]:
-            events.append({"db": len(dbs), "kind": "count", "t": enc(t) if t else [], "n": db.count_features_of_type(t)})
+            n = db.count_features_of_type(t)
+            events.append({"db": len(dbs), "kind": "count", "t": enc(t) if t else [], "n": n if isinstance(n, int) and not isinstance(n, bool) else -1})
             meta.append(({"count": t}, "count_features_of_type"))
         events.append({"db": len(dbs), "kind": "featuretypes", "vals": [enc(x) for x in db.featuretypes()]})
         meta.append(({}, "featuretypes"))
         events.append({"db": len(dbs), "kind": "seqids", "vals": [enc(x) for x in db.seqids()]})
         meta.append(({}, "seqids"))
         # count equals the number iterated
-        for t in TYPES:
+        for t in TYPES + ["nosuch"]:
             n_iter = len(list(db.features_of_type(t)))
             if n_iter != db.count_features_of_type(t):
-                ctx.violation({"n_features": len(feats), "type": t}, "count_vs_iteration", None)
+                ctx.violation({"features": feats, "count_type": t}, "count_vs_iteration", {"count": db.count_features_of_type(t), "iterated": n_iter})
     drift = 0
     for idx, clause in judge(ctx, dbs, events, "all"):
         if clause == "drift":
@@ -136,6 +137,11 @@ def replay(ctx, rec):
     if "features" not in c:
         return True
     import gffutils
+    if "count_type" in c:
+        objs0 = [G.real_feature(G.feat(dec(f["ftype"]), f["start"], f["end"], [("ID", [dec(f["id"])])], seqid=dec(f["seqid"]))) for f in c["features"]]
+        with dbio.quiet():
+            db0 = gffutils.create_db(objs0, ":memory:")
+        return len(list(db0.features_of_type(c["count_type"]))) != db0.count_features_of_type(c["count_type"])
     objs = []
     for f in c["features"]:
         objs.append(G.real_feature(G.feat(dec(f["ftype"]), f["start"], f["end"], [("ID", [dec(f["id"])])], seqid=dec(f["seqid"]), source=dec(f["source"]),
